@@ -1038,7 +1038,7 @@ public:
       {
          clear(rhs.size());
 
-         if(rhs.size() > 0)
+         if(rhs.num() > 0)
          {
             SVSetBaseArray::operator=(rhs);
             set = rhs.set;
@@ -1074,7 +1074,7 @@ public:
       {
          clear(rhs.size());
 
-         if(rhs.size() > 0)
+         if(rhs.num() > 0)
             this->add(rhs);
       }
 
